@@ -32,6 +32,10 @@ BGPRX_ASSUMPTIONS = [
     "gate before it sends what ends the session early); the theorems cover every schedule, the engine compares the drained one",
     "bgprx: no gate event (Terminate / Reconfiguring) happens during a case - those exits are engine bgpend's; timers (hold, keepalive, DelayOpen) do "
     "not fire within the milliseconds of a case",
+    "bgprx: a call of session.tick() runs to its end before the loop looks at anything else (rx_sched). VIOLATED by the code under load: select! drops a "
+    "tick() future that is suspended half-way - after the frame was cut from the buffer, inside tx.send(), which tokio's cooperative budget suspends about "
+    "every 128th time - when the channel branch is ready on the next poll: that UPDATE is lost (known finding bgp-update-loss, reproduced by the extra stage "
+    "c06-bgp-burst on every run); the line-protocol cases are far too short to get there",
     "bgprx: dependencies are built as rotonda's release build builds them (overflow-checks off): a length field below 18 wraps in routecore's "
     "parse_frame and the frame is never complete - with overflow checks it would panic there",
 ]
@@ -109,8 +113,24 @@ def refused_frame(rng, updates):
     return bytes(rng.below(255) for _ in range(16)) + bytes([0, 19, rng.choice([0, 7, 200])])
 
 
+def gen_preopen(rng, updates):
+    """a message in front of the OPEN (or instead of it): with DelayOpen the FSM gives up (Idle) and keeps the connection, without it
+    it lets go of the connection; an UPDATE is handed over all the same and the loop leaves at once (no NegotiatedConfig)"""
+    s = Script(True, "A %s - 0" % rng.choice(["-", "65001"]))
+    k = rng.choice("ukn")
+    s.add(k, {"u": bytes.fromhex(rng.choice(updates)), "k": KEEPALIVE, "n": notification()}[k])
+    if rng.chance(50):
+        s.add("o", OPEN)
+        s.add("k", KEEPALIVE)
+        if rng.chance(60):
+            s.add("b", bytes.fromhex(rng.choice(updates)))
+    return s.end(rng.choice(["Z 120", "C", "R"]))
+
+
 def gen_full(rng, updates, want):
     """structurally known streams: the whole update trace is compared"""
+    if want == "preopen":
+        return gen_preopen(rng, updates)
     dup = rng.chance(6)
     cfg = None
     if dup or rng.chance(30):
@@ -290,7 +310,7 @@ def make_gen(update_pool):
         updates = update_pool(rng.fork("updates"), 200 if quick else 2000)
         n_full, n_shape = (500, 700) if quick else (12000, 20000)
         for _ in range(n_full):
-            yield gen_full(rng, updates, rng.weighted([("valid", 40), ("refused", 25), ("short", 10), ("partial", 15), ("reset", 10)]))
+            yield gen_full(rng, updates, rng.weighted([("valid", 38), ("refused", 24), ("short", 10), ("partial", 14), ("reset", 9), ("preopen", 5)]))
         for _ in range(n_shape):
             yield gen_shape(rng, updates)
     return gen
@@ -316,6 +336,8 @@ def corpus():
         "T;%s;u %s;S 1;s %s0005;Z 200" % (hs, v4, "ff" * 16),
         # an earlier session of the same peer: rejected, its entry is left alone
         "T;A - - 1;%s;u %s;C" % (hs, v4),
+        # an UPDATE / a KEEPALIVE in front of the OPEN: the loop leaves at once (no NegotiatedConfig) / the FSM gives up and waits (DelayOpen)
+        "T;A - - 0;u %s;Z 120" % v4, "T;A 65001 - 0;k %s;Z 120" % KEEPALIVE.hex(), "T;A - - 0;k %s;%s;u %s;Z 120" % (KEEPALIVE.hex(), hs, v4),
         # nothing at all
         "T;C", "T;R", "C",
         # known finding bgp-open-parse-panic: an OPEN whose capability runs past its optional parameter (open.rs:616), whose
@@ -422,6 +444,32 @@ def known_signature(k, engine, case, mo, spec, im):
         return (where == "fsm/session" and line == 1874 and case.split(";")[-1].strip() in ("R", "R0")
                 and toks[1:4] == ["end:0", "live:-", "fin:-"])
     return False
+
+
+def burst(V, tier, seed):
+    """A long run of UPDATEs in one go (what a peer does after the session comes up): every one of them must leave the gate.
+    N UPDATEs, each announcing one prefix of its own, are written at once after the handshake, then FIN; counted are the Bulks
+    that left the gate and the distinct prefixes in them. Implementation only (the model has no notion of a tick() that is
+    abandoned half-way: see the assumptions)."""
+    import subprocess
+    n = 4000 if tier == "quick" else 60000
+    attrs = bytes([0x40, 1, 1, 0, 0x40, 2, 6, 2, 1, 0, 0, 0xfd, 0xe8, 0x40, 3, 4, 10, 0, 0, 1])
+    blob = b"".join(frame(2, bytes([0, 0]) + len(attrs).to_bytes(2, "big") + attrs + bytes([24, 10 + (i >> 16), (i >> 8) & 255, i & 255])) for i in range(n))
+    case = "T;o %s;L;k %s;u %s;C" % (OPEN.hex(), KEEPALIVE.hex(), blob.hex())
+    p = subprocess.run([V.VH, "bgprx"], input=case + "\n", stdout=subprocess.PIPE, stderr=subprocess.PIPE, text=True, timeout=600)
+    toks = p.stdout.split()
+    bulks = [t for t in toks if t.startswith("u:[")]
+    prefixes = {t.split(":")[2] for t in bulks if t.count(":") >= 3}
+    head = " ".join(toks[:4])
+    r = {"name": "c06-bgp-burst", "evaluations": 1, "coverage": {"updates_sent": n, "bulks_out": len(bulks), "distinct_prefixes": len(prefixes), "head": head}, "failures": []}
+    if head != "P:- end:1 live:- fin:w" or toks[-1:] != ["w:s"]:
+        r["failures"].append({"what": f"BGP burst of {n} UPDATEs: the session did not end in its clean-up: {head!r} ... {toks[-1:]!r} {p.stderr[-200:]!r}",
+                              "kind": "property", "replay_cmd": f"{V.VH} bgprx  (case: handshake, {n} UPDATEs in one write, FIN)"})
+    elif len(prefixes) != n:
+        r["failures"].append({"what": f"BGP burst: UPDATEs never left the gate: {n - len(prefixes)} of {n} UPDATEs sent in one go on an established session were "
+                                      f"dropped without a trace (Bulks out: {len(bulks)}; the session went on and ended normally)",
+                              "kind": "property", "replay_cmd": f"{V.VH} bgprx  (case: handshake, {n} UPDATEs of one prefix each in one write, FIN)"})
+    return r
 
 
 def engine(update_pool):
